@@ -1229,14 +1229,19 @@ func phiLeaves(v ssa.Value) []ssa.Value {
 		// a value computed by a helper extracted since the pinned commit: what the helper may return, its
 		// parameters standing for the call's arguments
 		if call, ok := v.(*ssa.Call); ok && depth < 2 {
-			if g := call.Call.StaticCallee(); inlinable(g) && g.Signature.Results().Len() == 1 && len(g.Params) == len(call.Call.Args) {
-				for i, p := range g.Params {
-					bound[p] = call.Call.Args[i]
-				}
+			if tg := walkTargets(call); len(tg) > 0 && tg[0].Signature.Results().Len() == 1 {
 				depth++
-				for _, ret := range returnsOf(g) {
-					if len(ret.Results) == 1 {
-						walk(ret.Results[0])
+				for _, g := range tg {
+					if len(g.Params) != len(call.Call.Args) {
+						continue
+					}
+					for i, p := range g.Params {
+						bound[p] = call.Call.Args[i]
+					}
+					for _, ret := range returnsOf(g) {
+						if len(ret.Results) == 1 {
+							walk(ret.Results[0])
+						}
 					}
 				}
 				depth--
@@ -1246,14 +1251,19 @@ func phiLeaves(v ssa.Value) []ssa.Value {
 		// one result of a multi-result helper extracted since
 		if ex, ok := v.(*ssa.Extract); ok && depth < 2 {
 			if call, ok := ex.Tuple.(*ssa.Call); ok {
-				if g := call.Call.StaticCallee(); inlinable(g) && len(g.Params) == len(call.Call.Args) {
-					for i, p := range g.Params {
-						bound[p] = call.Call.Args[i]
-					}
+				if tg := walkTargets(call); len(tg) > 0 {
 					depth++
-					for _, ret := range returnsOf(g) {
-						if ex.Index < len(ret.Results) {
-							walk(ret.Results[ex.Index])
+					for _, g := range tg {
+						if len(g.Params) != len(call.Call.Args) {
+							continue
+						}
+						for i, p := range g.Params {
+							bound[p] = call.Call.Args[i]
+						}
+						for _, ret := range returnsOf(g) {
+							if ex.Index < len(ret.Results) {
+								walk(ret.Results[ex.Index])
+							}
 						}
 					}
 					depth--
@@ -2127,9 +2137,11 @@ func allInstrs(fn *ssa.Function, f func(ssa.Instruction)) {
 			for _, in := range b.Instrs {
 				f(in)
 				if call, ok := in.(*ssa.Call); ok && depth < 2 {
-					if h := call.Call.StaticCallee(); inlinable(h) && !seen[h] {
-						seen[h] = true
-						walk(h, depth+1)
+					for _, h := range walkTargets(call) {
+						if !seen[h] {
+							seen[h] = true
+							walk(h, depth+1)
+						}
 					}
 				}
 			}
@@ -2325,8 +2337,10 @@ func rootSite(f *ssa.Function, in ssa.Instruction) ssa.Instruction {
 		for _, b := range g.Blocks {
 			for _, x := range b.Instrs {
 				if call, ok := x.(*ssa.Call); ok {
-					if h := call.Call.StaticCallee(); inlinable(h) && h != g && reaches(h, depth+1) {
-						return true
+					for _, h := range walkTargets(call) {
+						if h != g && reaches(h, depth+1) {
+							return true
+						}
 					}
 				}
 			}
@@ -2336,9 +2350,12 @@ func rootSite(f *ssa.Function, in ssa.Instruction) ssa.Instruction {
 	for _, b := range f.Blocks {
 		for _, x := range b.Instrs {
 			if call, ok := x.(*ssa.Call); ok {
-				if h := call.Call.StaticCallee(); inlinable(h) && reaches(h, 0) {
-					found = x
-					n++
+				for _, h := range walkTargets(call) {
+					if reaches(h, 0) {
+						found = x
+						n++
+						break
+					}
 				}
 			}
 		}
@@ -2372,4 +2389,264 @@ func asRoot(fn *ssa.Function, body func()) {
 	scanRoot = fn
 	defer func() { scanRoot = old }()
 	body()
+}
+
+// ---------------------------------------------------------------------------
+// result sources: where the value a function returns is decided
+
+// resSource: one place where result idx of a function gets a value: a return of a non-phi value, or a CFG edge
+// over which a phi feeding the returned value receives a non-phi operand. konst: that value as an integer
+// constant, when it is one.
+type resSource struct {
+	ret   ssa.Instruction // set for a return
+	edge  *CFGEdge        // set for a phi edge
+	val   ssa.Value
+	konst int64
+	isK   bool
+}
+
+func resultSources(f *ssa.Function, idx int) []resSource {
+	var out []resSource
+	seenPhi := map[*ssa.Phi]bool{}
+	var walkPhi func(p *ssa.Phi)
+	walkPhi = func(p *ssa.Phi) {
+		if seenPhi[p] {
+			return
+		}
+		seenPhi[p] = true
+		for i, e := range p.Edges {
+			if q, isPhi := e.(*ssa.Phi); isPhi {
+				walkPhi(q)
+				continue
+			}
+			pb := p.Block().Preds[i]
+			for si, succ := range pb.Succs {
+				if succ == p.Block() {
+					k, isK := constInt(e)
+					out = append(out, resSource{edge: &CFGEdge{pb, si}, val: e, konst: k, isK: isK})
+				}
+			}
+		}
+	}
+	for _, ret := range returnsOf(f) {
+		var r ssa.Instruction = ret
+		if idx >= len(ret.Results) {
+			continue
+		}
+		v := ret.Results[idx]
+		for d := 0; d < 3; d++ { // (through the spill cell of a named result)
+			u, ok := v.(*ssa.UnOp)
+			if !ok || u.Op != token.MUL {
+				break
+			}
+			s := loadedValue(u)
+			if s == nil {
+				break
+			}
+			v = s
+		}
+		if p, isPhi := v.(*ssa.Phi); isPhi {
+			walkPhi(p)
+			continue
+		}
+		k, isK := constInt(v)
+		out = append(out, resSource{ret: r, val: v, konst: k, isK: isK})
+	}
+	return out
+}
+
+// sourcesWhere: the sources satisfying pred, as a Cut target (instruction predicate + edge predicate).
+func sourcesWhere(srcs []resSource, pred func(resSource) bool) (func(ssa.Instruction) bool, EdgePred, int) {
+	var rets []ssa.Instruction
+	var edges []CFGEdge
+	for _, s := range srcs {
+		if !pred(s) {
+			continue
+		}
+		if s.ret != nil {
+			rets = append(rets, s.ret)
+		} else if s.edge != nil {
+			edges = append(edges, *s.edge)
+		}
+	}
+	return inSet(rets), edgeSet(edges), len(rets) + len(edges)
+}
+
+// connectednessRules: the answer of Swarm.connectednessUnlocked as a function of the connections seen, however
+// the function is written (early returns, a flag, a state variable): (a) Connected is decided only past an open,
+// non-limited connection; (b) once an open non-limited connection was seen nothing but Connected can be the
+// answer; (c) Limited is decided only past an open limited connection; (d) once an open limited connection was
+// seen the answer is not NotConnected.
+func connectednessRules(c *Ctx, ru *Rule, f *ssa.Function, which string) {
+	const netP = "core/network"
+	connected, limited, notConn := constIntObj(c, netP, "Connected"), constIntObj(c, netP, "Limited"), constIntObj(c, netP, "NotConnected")
+	srcs := resultSources(f, 0)
+	allK := len(srcs) > 0
+	for _, s := range srcs {
+		if !s.isK {
+			allK = false
+		}
+	}
+	name := "connectednessUnlocked: "
+	if !allK {
+		ru.Fail(name+"answers are the Connectedness constants", f.Pos(), "a returned value is not one of the constants NotConnected / Limited / Connected", "")
+		return
+	}
+	isClosed := edgeBool(isCallResult(0, "(*p2p/net/swarm.Conn).IsClosed"), false)
+	notLimited := edgeBool(isStatLimited, false)
+	isLimited := edgeBool(isStatLimited, true)
+	var directEdges, limitedEdges []CFGEdge
+	for _, b := range blocksDeep(f) {
+		for s := range b.Succs {
+			if notLimited(b, s) {
+				directEdges = append(directEdges, CFGEdge{b, s})
+			}
+			if isLimited(b, s) {
+				limitedEdges = append(limitedEdges, CFGEdge{b, s})
+			}
+		}
+	}
+	if len(directEdges) == 0 || len(limitedEdges) == 0 {
+		ru.Fail(name+"test of c.Stat().Limited", f.Pos(), "not found", "")
+		return
+	}
+	run := func(key string, q *Cut, n int, why string) {
+		if n == 0 && q.From == nil && q.FromEdges == nil {
+			ru.Fail(name+key, f.Pos(), "no such answer in the function", "")
+			return
+		}
+		w, ex := q.Run(c)
+		ru.Check(w == "", name+key, f.Pos(), ex+1, "", why, w)
+	}
+	if which == "" || strings.Contains(which, "a") {
+		ti, te, n := sourcesWhere(srcs, func(s resSource) bool { return s.konst == connected })
+		run("Connected is decided only past !c.IsClosed()", &Cut{Fn: f, Target: ti, TargetEdge: te, EdgeCut: isClosed}, n, "a closed connection counts as connected")
+		run("Connected is decided only past !c.Stat().Limited", &Cut{Fn: f, Target: ti, TargetEdge: te, EdgeCut: notLimited}, n, "a limited (relayed) connection is reported as Connected")
+	}
+	if which == "" || strings.Contains(which, "b") {
+		ti, te, _ := sourcesWhere(srcs, func(s resSource) bool { return s.konst != connected })
+		run("once an open non-limited connection was seen the answer is Connected", &Cut{Fn: f, FromEdges: directEdges, Target: ti, TargetEdge: te}, 1,
+			"a peer with an open direct connection is reported as Limited or NotConnected (e.g. when a limited connection is listed after it)")
+	}
+	if which == "" || strings.Contains(which, "c") {
+		ti, te, n := sourcesWhere(srcs, func(s resSource) bool { return s.konst == limited })
+		run("Limited is decided only past c.Stat().Limited", &Cut{Fn: f, Target: ti, TargetEdge: te, EdgeCut: isLimited}, n, "Limited is reported without a limited connection")
+	}
+	if which == "" || strings.Contains(which, "d") {
+		ti, te, _ := sourcesWhere(srcs, func(s resSource) bool { return s.konst == notConn })
+		run("once an open limited connection was seen the answer is not NotConnected", &Cut{Fn: f, FromEdges: limitedEdges, Target: ti, TargetEdge: te}, 1,
+			"a peer reachable over a relayed connection is reported as NotConnected")
+	}
+}
+
+// installedFunc: the function a function-typed value stands for: a function literal (closure), a named function, or
+// a bound method value `x.m` (go/ssa wraps it in a synthetic $bound function whose body calls the method).
+func installedFunc(v ssa.Value) *ssa.Function {
+	var g *ssa.Function
+	switch x := strip2(v).(type) {
+	case *ssa.MakeClosure:
+		g, _ = x.Fn.(*ssa.Function)
+	case *ssa.Function:
+		g = x
+	}
+	if g == nil {
+		return nil
+	}
+	if g.Synthetic != "" && g.Blocks != nil {
+		// wrapper: the one module function it calls
+		var target *ssa.Function
+		n := 0
+		allInstrsIn(g, func(in ssa.Instruction) {
+			if ci, ok := in.(ssa.CallInstruction); ok {
+				if h := ci.Common().StaticCallee(); h != nil {
+					target = h
+					n++
+				}
+			}
+		})
+		if n == 1 {
+			return target
+		}
+	}
+	return g
+}
+
+// rangedOverOf: what the loop with header h ranges over: the slice of a `for i := range s` (go/ssa: i < len(s)) or
+// the map / string / channel of a range that goes through a Next instruction; nil when h is not such a header.
+func rangedOverOf(h *ssa.BasicBlock) ssa.Value {
+	if h == nil {
+		return nil
+	}
+	for _, in := range h.Instrs {
+		if nx, ok := in.(*ssa.Next); ok {
+			if rg, ok := nx.Iter.(*ssa.Range); ok {
+				return strip2(rg.X)
+			}
+		}
+	}
+	i := ifOf(h)
+	if i == nil {
+		return nil
+	}
+	bo, ok := i.Cond.(*ssa.BinOp)
+	if !ok || bo.Op != token.LSS {
+		return nil
+	}
+	ln, ok := bo.Y.(*ssa.Call)
+	if !ok || calleeKey(ln) != "builtin.len" {
+		return nil
+	}
+	return strip2(ln.Call.Args[0])
+}
+
+// walkTargets: the functions a plain call continues in, as far as the engines walk into calls: the static callee
+// when it is a helper extracted since the pinned commit or a closure; for a call through a local function variable
+// (`dial := func() {..}; if c { dial = func() {..} }; dial()`), every function literal the variable may hold (at
+// most four, all of them literals of the calling function). Nil when the call is not walked.
+var walkTargetsBusy bool
+
+func walkTargets(call *ssa.Call) []*ssa.Function {
+	if call.Call.IsInvoke() {
+		return nil
+	}
+	if g := call.Call.StaticCallee(); g != nil {
+		if inlinable(g) {
+			return []*ssa.Function{g}
+		}
+		return nil
+	}
+	if _, isBuiltin := call.Call.Value.(*ssa.Builtin); isBuiltin || walkTargetsBusy {
+		return nil
+	}
+	switch call.Call.Value.(type) {
+	case *ssa.Phi, *ssa.UnOp:
+	default:
+		return nil
+	}
+	walkTargetsBusy = true
+	defer func() { walkTargetsBusy = false }()
+	var out []*ssa.Function
+	for _, l := range phiLeaves(call.Call.Value) {
+		mc, ok := l.(*ssa.MakeClosure)
+		if !ok {
+			return nil
+		}
+		g, ok := mc.Fn.(*ssa.Function)
+		if !ok || g.Parent() != call.Parent() || !inlinable(g) || len(g.Params) != len(call.Call.Args) {
+			return nil
+		}
+		dup := false
+		for _, x := range out {
+			if x == g {
+				dup = true
+			}
+		}
+		if !dup {
+			out = append(out, g)
+		}
+	}
+	if len(out) > 4 {
+		return nil
+	}
+	return out
 }
